@@ -115,6 +115,8 @@ def gen_model(rng, idx):
         spec["outputs"].append("same_" + tgt)
     # (other rootfinder plugins are only used in the unsolvable-step probe: their convergence on badly
     #  scaled but solvable steps is CasADi's business, not this property's)
+    if rng.random() < 0.4:
+        spec["extra_nominal"] = str(rng.choice([50, 10, Fraction(1, 4)]))
     if not spec["delays"] and rng.random() < 0.35:
         # explicit step sizes that span several import intervals (update(dt) with dt = m * spacing)
         spec["multiples"] = [rng.choice([1, 2, 1, 3]) for _ in range(nsteps)]
@@ -152,13 +154,26 @@ def run_model(spec):
                 o["cache"] = False
                 return o
 
+            def extra_variables(self):
+                # a user-defined variable z = 2 * (first state) + 1 with its own nominal
+                if spec.get("extra_nominal"):
+                    from rtctools.simulation.simulation_problem import Variable
+                    return [Variable("zextra", nominal=float(Fraction(spec["extra_nominal"])))]
+                return []
+
+            def extra_equations(self):
+                if spec.get("extra_nominal"):
+                    v = self.get_variables()
+                    return [v["zextra"] - (2.0 * v[spec["states"][0]["name"]] + 1.0)]
+                return []
+
             def rootfinder_options(self):
                 if spec.get("rootfinder"):
                     return {"solver": spec["rootfinder"], "solver_options": {"error_on_fail": False}}
                 return super().rootfinder_options()
 
         p = S(**kwargs)
-        names = [v["name"] for v in spec["states"] + spec["algebraics"] + spec["inputs"]] + \
+        names = (["zextra"] if spec.get("extra_nominal") else []) + [v["name"] for v in spec["states"] + spec["algebraics"] + spec["inputs"]] + \
                 ["der(%s)" % v["name"] for v in spec["states"]] + [k["name"] for k in spec["parameters"]] + ["time"]
         obs = []
         p.pre()
@@ -348,6 +363,14 @@ def run(ctx):
             if v.get("fixed") and abs(obs[0][v["name"]] - float(Fraction(v["start"]))) > 1e-7:
                 ctx.violation("sim/fixed-start", {"spec": spec, "variable": v["name"], "value": obs[0][v["name"]]},
                               what="fixed start value of %s not honoured at t0" % v["name"])
+        # a user-defined extra variable is read in physical units at every step
+        if spec.get("extra_nominal"):
+            x0n = spec["states"][0]["name"]
+            for i, o in enumerate(obs):
+                if abs(o["zextra"] - (2.0 * o[x0n] + 1.0)) > 1e-6 * (1 + abs(o[x0n])):
+                    ctx.violation("sim/extra-variable", {"spec": spec, "step": i, "zextra": o["zextra"], x0n: o[x0n]},
+                                  what="extra variable z = 2*%s + 1 (nominal %s) reads %r where %s = %r" % (x0n, spec["extra_nominal"], o["zextra"], x0n, o[x0n]))
+                    break
         # initial equations hold at t0
         from ..problems import ast_eval
         for lhs, rhs in spec.get("initial_equations", []):
